@@ -1419,6 +1419,9 @@ func (vm *VM) run() (Addr, bool) {
 							var chosen int
 							cas := reflect.SelectCase{Dir: reflect.SelectRecv, Chan: v}
 							vm.cases = append(vm.cases, cas, vm.env.doneCase)
+							if verifEnabled {
+								verifDoneSelect(vm)
+							}
 							chosen, u, ok = reflect.Select(vm.cases)
 							if chosen == 1 {
 								return vm.stop()
@@ -1513,6 +1516,9 @@ func (vm *VM) run() (Addr, bool) {
 				var chosen int
 				cas := reflect.SelectCase{Dir: reflect.SelectRecv, Chan: ch}
 				vm.cases = append(vm.cases, cas, vm.env.doneCase)
+				if verifEnabled {
+					verifDoneSelect(vm)
+				}
 				chosen, v, vm.ok = reflect.Select(vm.cases)
 				if chosen == 1 {
 					return vm.stop()
@@ -1626,6 +1632,9 @@ func (vm *VM) run() (Addr, bool) {
 				chosen, recv, recvOK = reflect.Select(vm.cases)
 			} else {
 				vm.cases = append(vm.cases, vm.env.doneCase)
+				if verifEnabled {
+					verifDoneSelect(vm)
+				}
 				chosen, recv, recvOK = reflect.Select(vm.cases)
 				if chosen == numCase {
 					return vm.stop()
@@ -1670,6 +1679,9 @@ func (vm *VM) run() (Addr, bool) {
 			} else {
 				cas := reflect.SelectCase{Dir: reflect.SelectSend, Chan: ch, Send: v}
 				vm.cases = append(vm.cases, cas, vm.env.doneCase)
+				if verifEnabled {
+					verifDoneSelect(vm)
+				}
 				chosen, _, _ := reflect.Select(vm.cases)
 				if chosen == 1 {
 					return vm.stop()
